@@ -30,7 +30,8 @@ Concrete(m) == IF m = "best" THEN "aes" ELSE m
 \* plaintext byte strings: empty, shorter / equal / longer than a block, longer than the key,
 \* with bytes >= 128 (not UTF-8)
 PT(n, sd) == [i \in 1..n |-> (i * 37 + sd) % 256]
-Plaintexts == {PT(0, 0), PT(1, 65), PT(15, 3), PT(16, 200), PT(17, 90), PT(33, 129), PT(40, 7)}
+\* (PT(40, 186): the 16th byte is 10, so its first block LOOKS like it ends in padding)
+Plaintexts == {PT(0, 0), PT(1, 65), PT(15, 3), PT(16, 200), PT(17, 90), PT(33, 129), PT(40, 7), PT(40, 186)}
 
 XorBytes(data, key) == [i \in DOMAIN data |-> data[i] ^^ key[((i - 1) % Len(key)) + 1]]
 
@@ -79,6 +80,15 @@ Decrypt(key, i) ==
               ret |-> IF r.ok /\ ~r.garbage THEN BytesV(r.pt) ELSE NoneV,
               notpt |-> r.garbage \/ ~r.ok \/ r.pt # store[i].pt]
 
+\* a real AES ciphertext cut down to IV + first block: PKCS7 unpadding of the first plaintext
+\* block must fail unless that block happens to end in valid padding
+PadOk(blk) == LET last == blk[16] IN last \in 1..16 /\ \A j \in (17 - last)..16 : blk[j] = last
+DecryptTruncated(i) ==
+    /\ store[i].sv.m = "aes" /\ Len(store[i].pt) >= 17
+    /\ UNCHANGED <<store, nonce, chal>>
+    /\ ev' = [op |-> "DecryptTruncated", i |-> i,
+              out |-> IF PadOk(SubSeq(store[i].pt, 1, 16)) THEN "ok" ELSE "error"]
+
 \* malformed ciphertexts handed to KeyFile.decrypt
 BadCts == {[m |-> "aes", ct |-> [k |-> "raw", y |-> PT(0, 0)]],       \* empty
            [m |-> "aes", ct |-> [k |-> "raw", y |-> PT(16, 1)]],      \* shorter than IV + one block
@@ -109,7 +119,7 @@ Algs == {"md5", "sha1", "sha224", "sha256", "sha384", "sha512"}
 DigestSize(a) == CASE a = "md5" -> 16 [] a = "sha1" -> 20 [] a = "sha224" -> 28 [] a = "sha256" -> 32
                    [] a = "sha384" -> 48 [] a = "sha512" -> 64
 \* secrets: text and byte strings (names interpreted by the harness)
-SecretNames == {"empty", "a", "ab", "unicode", "long", "bytes", "colon"}
+SecretNames == {"empty", "a", "ab", "unicode", "nfkc", "long", "bytes", "colon"}
 DV(alg, salt, pt) == [alg |-> alg, salt |-> salt, saltlen |-> DigestSize(alg), pt |-> pt]
 
 Assign(alg, p) ==        \* cfg.password = plaintext   (the field's algorithm is alg)
@@ -138,6 +148,7 @@ Next ==
     \/ \E k \in Keys, m \in Methods, p \in Plaintexts : Tick /\ Encrypt(k, m, p)
     \/ \E k \in Keys, i \in DOMAIN store : Tick /\ Decrypt(k, i)
     \/ \E k \in Keys, sv \in BadCts : Tick /\ DecryptBad(k, sv)
+    \/ \E i \in DOMAIN store : Tick /\ DecryptTruncated(i)
     \/ \E s \in StoredShapes : Tick /\ LoadStored(s)
     \/ \E a \in Algs, p \in SecretNames : Tick /\ Assign(a, p)
     \/ \E a \in Algs, p \in SecretNames : Tick /\ LoadPlain(a, p)
@@ -166,6 +177,7 @@ C08_XorInvolution ==
         /\ \A i \in DOMAIN p : c[i] = p[i] ^^ KeyBytes(k)[((i - 1) % 32) + 1]
 C08_MalformedRejected ==
     /\ ev.op = "DecryptBad" => ev.out = "error"
+    /\ (ev.op = "DecryptTruncated" /\ ~PadOk(SubSeq(store[ev.i].pt, 1, 16))) => ev.out = "error"
     /\ (ev.op = "LoadStored" /\ ev.shape \notin {"none", "plain-str"}) => ev.out = "error"
 
 (* C09 *)
